@@ -65,6 +65,39 @@ fn open_in_band(side: Side, pattern: u8, seed: u64) -> impl Fn() {
     }
 }
 
+/// bob's whole close (allowed to leave the band once per block) pushes the price outside the
+/// band; an OpenPosition by alice later in the same block must be rejected, whichever direction
+fn open_after_close_left_band(bob_side: Side, alice_side: Side, seed: u64) -> impl Fn() {
+    move || {
+        let mut cfg = Cfg::base(false, 9);
+        let d = cfg.d();
+        cfg.partial_ratio = Uint128::new(d); // 100%: ClosePosition always closes the whole position
+        let mut r = Run::new(cfg, Mon::none());
+        symrt::set_full(false);
+        let m0 = Uint128::new((40 + (seed % 20) as u128) * d);
+        assert!(r.step(Op::Open { who: BOB, side: bob_side.clone(), margin: m0, lev: Uint128::new(2 * d), limit: Uint128::zero(), funds: None }).tx.ok);
+        let f = var("fluct", 1, d, d / 50);
+        assert!(r.w.update_vamm(0, None, None, None, None, Some(f), None).ok);
+        let last = r.w.spot_price(0).unwrap();
+        r.w.next_block(15);
+        let t = r.step(Op::Close { who: BOB, limit: Uint128::zero() });
+        if !t.tx.ok {
+            return;
+        }
+        symrt::set_full(true);
+        let b = band(last, f, d);
+        let spot0 = r.w.spot_price(0).unwrap();
+        let m = amount("m", d, false, 10);
+        let rec = r.step(Op::Open { who: ALICE, side: alice_side.clone(), margin: m, lev: Uint128::new(2 * d), limit: Uint128::zero(), funds: None });
+        let what = format!("open after a close left the band (closer {:?}, opener {:?})", bob_side, alice_side);
+        if rec.tx.ok {
+            prove_d("C15/open-rejected-when-price-already-outside-band", inside(s(spot0), &b), what.clone());
+            let spot1 = r.w.spot_price(0).unwrap();
+            prove_d("C15/successful-open-leaves-price-inside-band", inside(s(spot1), &b), what);
+        }
+    }
+}
+
 trait EqTrue {
     fn eq_true(&self) -> bool;
 }
@@ -157,6 +190,9 @@ pub fn scenarios(seed: u64) -> Vec<Scenario> {
         for (p, pn) in [(0u8, "first"), (1, "afterdrift"), (2, "opposite")] {
             let tier = if p == 1 { Tier::Thorough } else { Tier::Quick };
             v.push(sc("C15", tier, &format!("c15.open.{}.{}", pn, sn), d1, 500, 150, open_in_band(side.clone(), p, seed)));
+        }
+        for (aside, an) in [(Side::Buy, "buy"), (Side::Sell, "sell")] {
+            v.push(sc("C15", Tier::Quick, &format!("c15.open.after-close-left-band.{}.{}", sn, an), "a whole close of a seeded position under a symbolic limit leaves the band; a later open in the same block (symbolic size, either side) must be rejected", 400, 120, open_after_close_left_band(side.clone(), aside, seed)));
         }
         v.push(sc("C15", Tier::Quick, &format!("c15.close.{}", sn), "position size, fluctuation limit symbolic; partial-close fraction 25%; whole close iff the price after a whole close (vAMM quote) stays inside the band", 500, 150, close_in_band(side.clone(), false, seed)));
         v.push(sc("C15", Tier::Quick, &format!("c15.close.afterdrift.{}", sn), "as c15.close after another trader moved the price (toward the close's own direction) inside the band in the same block", 800, 150, close_in_band(side.clone(), true, seed)));
